@@ -23,7 +23,7 @@ def check(run):
         run.touch(f)
 
     run.clause('R2k m_queue is mutated only by emplace_back (arrival) and erase(begin()) (departure)')
-    KINDS = {ip.norm: {'emplace_back'}, ns.norm: {'erase'}}
+    KINDS = {ip.norm: {'push_back'}, ns.norm: {'pop_front'}}
     READS = {'front', 'size', 'empty', 'begin', 'end', 'back'}
     n = 0
     for fn in fx.repo_functions():
@@ -36,14 +36,14 @@ def check(run):
             if a.kind in ('read', 'arg'):
                 continue
             n += 1
-            ok = a.kind == 'method' and a.method in KINDS.get(top, ())
+            ok = a.kind == 'method' and a.site['k'] == 'call' and q.canon_op(fn, a.site) in KINDS.get(top, ())
             run.check(ok, 'R2k', 'fifo-ops', '%s: %s%s on m_queue' % (top, a.kind, ':' + a.method if a.method else ''), fn.loc(a.node),
                       'the hop\'s container is mutated by %s in %s: packets no longer leave in arrival order' % (a.method or a.kind, top), 'allowed FIFO operation')
     if n < 2:
         run.broke('fewer than two mutation sites of queue::m_queue found')
-    for c in ns.calls():
-        if (c.get('callee') or '').endswith('::erase') and q.render(ns, c.get('obj')) == 'm_queue':
-            run.check([q.render(ns, a) for a in c['args']] == ['m_queue.begin()'], 'R2k', 'fifo-pop-front', ns.norm, ns.loc(c), 'the sender erases %s, not the front' % [q.render(ns, a) for a in c['args']], 'erases begin()')
+    for op, c in q.container_calls(ns, 'm_queue'):
+        if op in ('erase', 'pop_back', 'pop_front'):
+            run.check(op == 'pop_front', 'R2k', 'fifo-pop-front', ns.norm, ns.loc(c), 'the sender removes %s(%s), not the front' % (op, [q.render(ns, a) for a in c['args']]), 'removes the front')
     taken = [nn for nn in ns.all_nodes() if nn['k'] == 'decl' and any('m_queue.front().pkt' in q.render(ns, v.get('init')) for v in nn['vars'])]
     run.check(len(taken) == 1, 'R2k', 'fifo-send-front', ns.norm, ns.loc(), 'the packet forwarded is not m_queue.front().pkt', 'forwards the front packet')
     for f in (bs,):
@@ -68,7 +68,7 @@ def check(run):
         run.broke('queue::next_packet_sent no longer forwards')
 
     run.clause('R10 queue-sender: empty->non-empty starts the sender; every departure continues while packets remain; every path of begin_send ends armed')
-    pushes = [c for c in ip.calls() if (c.get('callee') or '').split('::')[-1] == 'emplace_back' and q.render(ip, c.get('obj')) == 'm_queue']
+    pushes = [c for op, c in q.container_calls(ip, 'm_queue', {'push_back'})]
     starts = [c for c in ip.calls() if c.get('usr') == bs.usr]
     if not pushes or not starts:
         run.violation('R10', 'queue-sender-start', ip.norm, ip.loc(), 'incoming_packet no longer enqueues and starts the sender')
@@ -99,8 +99,9 @@ def check(run):
     okc = bool(cont)
     for c in cont:
         g = [(q.render(ns, a), p) for a, p in q.guards_at(ns, c)]
-        okc = okc and g in ([('m_queue.size()', True)], [('m_queue.empty()', False)], [('(m_queue.size() > 0)', True)], [('(m_queue.size() != 0)', True)])
-    er = [c for c in ns.calls() if (c.get('callee') or '').endswith('::erase') and q.render(ns, c.get('obj')) == 'm_queue']
+        ga = q.guards_at(ns, c)
+        okc = okc and len(ga) == 1 and q.nonempty_test(ns, ga[0][0], ga[0][1], 'm_queue') is True
+    er = [c for op, c in q.container_calls(ns, 'm_queue', {'pop_front'})]
     early = [r for r in q.returns(ns) if er and q.any_precedes(ns, er, r)]
     run.check(okc and not early, 'R10', 'queue-sender-continue', ns.norm, ns.loc(), 'after a departure the sender is not restarted exactly when packets remain (early return or extra condition)', 'continues iff the queue is non-empty')
     # begin_send: every path ends armed
